@@ -332,6 +332,38 @@ def rand_op(rng, placeholders: bool):
     return (n,)
 
 
+def add_orphans(rng, tree):
+    """placeholder-named keys that no lookup table knows (ordinary str keys as far as the dict API goes): several of
+    one kind on one level, ids that collide with nothing"""
+    tgt = tree
+    subs = [v for v in tree.values() if isinstance(v, dict)]
+    if subs and rng.random() < 0.4:
+        tgt = rng.choice(subs)
+    kind = rng.choice(["LINECOMMENT", "BLOCKCOMMENT", "INCLUDE"])
+    for _ in range(rng.randrange(2, 4)):
+        k = f"{kind}{rng.randrange(100, 140):06d}"
+        # (a value equal to its own key is the self-naming placeholder entry, which merge may overwrite: documented
+        # exception covered by the placeholder histories and the model; here the values are ordinary)
+        tgt[k] = rng.choice([1, "text", "// c", [1, 2]])
+    return tree
+
+
+def orphan_case(rng):
+    init = {"data": add_orphans(rng, small_tree(rng)), "lc": {}, "bc": {}, "inc": {}, "ex": {}}
+    ops = []
+    for _ in range(rng.randrange(1, 9)):
+        op = rand_op(rng, False)
+        if op[0] in ("update", "ior", "or", "merge", "ror") and rng.random() < 0.6:
+            arg = op[1]
+            if arg[0] == "plain":
+                arg = ("plain", add_orphans(rng, arg[1]))
+            else:
+                arg[1]["data"] = add_orphans(rng, arg[1]["data"])
+            op = (op[0], arg) + tuple(op[2:])
+        ops.append(op)
+    return {"init": init, "ops": ops, "ordinary": True, "placeholders": False, "orphans": True}
+
+
 def run_histories(ctx, cases):
     lines = [f"sd_trace {enc_spec(c['init'])} " + wire.enc_list(c["ops"], enc_op) for c in cases]
     mout = wire.run_model_sharded(lines)
@@ -356,7 +388,7 @@ def run_histories(ctx, cases):
         if r:
             ctx.oracle_fail(c, r[0], r[1])
         nontrivial = any(op[0] in ("update", "ior", "or", "ror", "merge") for op in c["ops"])
-        ctx.count(("h", repr(c)), nontrivial, "ordinary" if c.get("ordinary") else "placeholders",
+        ctx.count(("h", repr(c)), nontrivial, "orphan-placeholders" if c.get("orphans") else "ordinary" if c.get("ordinary") else "placeholders",
                   sample={"init": c["init"]["data"], "ops": [str(op)[:120] for op in c["ops"][:6]]} if nontrivial else None)
         for op in c["ops"]:
             ctx.classes["op:" + op[0]] += 1
@@ -370,6 +402,8 @@ def run(ctx):
         init = sd_spec(rng, placeholders)
         ops = [rand_op(rng, placeholders) for _ in range(rng.randrange(1, 26 if i % 10 == 0 else 9))]
         cases.append({"init": init, "ops": ops, "ordinary": not placeholders, "placeholders": placeholders})
+    for i in range(ctx.n(150, 4000)):
+        cases.append(orphan_case(rng))
     # the self-reference exception of merge (correspondence only; outside the ordinary domain)
     for i in range(ctx.n(100, 2000)):
         k = rng.choice(["a", "b", "ab"])
